@@ -80,6 +80,12 @@ def run(ck, tier):
     _span_sources(ck, p)
     # re-basing: shared rule
     c05._key(c05._Sub(_Only(ck, (":rebase", "chunk-cache:get:chars", "chunk-cache:put:chars")), "R-C03-rebase", ""), p, byk)
+    # a lint's span is made of token positions (R-C03-span): it points at the flagged text only if the front end that
+    # cut the text into lines / blocks put the inner tokens back where the cut was taken from (instances of R-C02-rebase)
+    from . import c02
+    ck.rule("R-C03-frontend", "lint spans are token spans, so they lie in the text and on the flagged characters only if every front end that parses a cut of the text (per-line comment parsers, Mask::parse) re-bases the inner tokens by the start of that cut, and an offset accumulated line by line advances by the full length of every line, skipped ones included (rule instances of R-C02-rebase)")
+    c02._rebase_cut(c05._Sub(ck, "R-C03-frontend", ""), p, byk)
+    c02._rebase_acc(c05._Sub(ck, "R-C03-frontend", ""), p, byk)
 
 
 def _arm(f, bb):
